@@ -9,20 +9,33 @@ MODES = ["futex", "posix", "busy_wait", "default"]
 
 @st.composite
 def parmap_case(draw, tier):
-    threads = draw(st.sampled_from([1, 2, 2, 3, 4, 4, 5, 7, 8, 8, 12, 15, 16, 16]))
+    threads = draw(st.sampled_from([1, 2, 2, 3, 3, 4, 4, 5, 6, 7, 8, 8, 12, 15, 16, 16]))
     mode = draw(st.sampled_from(["futex", "futex", "posix", "posix", "busy_wait", "busy_wait", "default"]))
     factory = draw(st.sampled_from(["raw", "raw", "raw", "thread", "thread", "boost"]))
     napplies = draw(st.integers(1, 20))
+    inject = threads >= 2 and draw(st.sampled_from([True, False]))
+    if inject:      # a few small applies: some workers stay idle (asleep) while one element is slow
+        napplies = draw(st.integers(1, 8))
     applies = []
     budget = 60_000_000 if tier == "quick" else 120_000_000      # total busy iterations of one pass over the applies
     for _ in range(napplies):
         n = draw(st.one_of(st.sampled_from([0, 1, 2, max(0, threads - 1), threads, threads + 1, 2 * threads, 100, 499, 500]),
                            st.integers(0, 500)))
+        if inject and draw(st.sampled_from([True, True, False])):
+            n = draw(st.integers(1, threads + 1))
         steal = draw(st.sampled_from([0, 0, 1, 2, -1, -1]))
         spin = draw(st.sampled_from([0, 0, 50, 2000, 20000, 200000]))
         while n * spin > budget // napplies and spin > 0:
             spin //= 10
-        applies.append([n, steal, spin])
+        ap = [n, steal, spin]
+        # injected-fault class: slow elements whose processing thread sends non-round wake-ups (EINTR) to the other workers
+        if inject and n > 0 and draw(st.sampled_from([True, True, False])):
+            slow = []
+            poss = sorted(set(draw(st.lists(st.integers(0, min(n, threads + 1) - 1), min_size=1, max_size=3))))
+            for pos in poss:
+                slow.append([pos, draw(st.sampled_from([200000, 1000000, 3000000, 6000000])), draw(st.integers(0, 8))])
+            ap.append(slow)
+        applies.append(ap)
     reps = draw(st.integers(1, 3)) if tier == "quick" else draw(st.sampled_from([5, 10, 20, 50]))
     return {"mode": mode, "threads": threads, "factory": factory, "reps": reps, "applies": applies}
 
@@ -41,7 +54,10 @@ class C49(core.Prop):
             "(sizes drawn around 0, 1, #threads-1, #threads, #threads+1, 500), the whole sequence repeated 1-3 times (thorough: "
             "5-50 times) on the same object.  The applied function counts its element and then calls Parmap::next() 0, 1, 2 times or "
             "until exhaustion (the work-stealing pattern of SwappedContext::suspend), with 0..200000 busy iterations per element "
-            "to vary the interleaving.  Oracle: when apply() returns every counter is exactly 1 and no value outside the vector was "
+            "to vary the interleaving.  Injected-fault class (half of the cases with >= 2 threads): 1-3 'slow elements' (0.2-6 M extra iterations) "
+            "whose processing thread sends 0-8 signals (no-op handler WITHOUT SA_RESTART, tgkill) to every other worker thread at "
+            "regular moments of its work: a worker sleeping in futex_wait() returns with EINTR although no round started, which "
+            "futex(2) allows at any time (posix: pthread_cond_wait restarts; busy_wait: nothing to interrupt).  Oracle: when apply() returns every counter is exactly 1 and no value outside the vector was "
             "delivered; after the Parmap is destroyed (workers joined) no counter has changed since its apply() returned; the "
             "run ends (a watchdog inside the driver reports a deadlock only when nothing progresses while every thread of the "
             "process sleeps).  NON-TRIVIAL: >= 2 applies with more elements than threads and >= 2 threads; label "
@@ -62,6 +78,15 @@ class C49(core.Prop):
                 res.append({"mode": mode, "threads": threads, "factory": "raw", "reps": 2,
                             "applies": [[0, 0, 0], [1, 0, 0], [threads, -1, 2000], [500, 0, 2000], [500, -1, 20000],
                                         [threads + 1, 1, 200000], [0, -1, 0], [37, 2, 50]]})
+        # injected non-round wake-ups: all three modes (harmless for posix / busy_wait), 2..8 threads, with and without slow elements
+        for mode in ("futex", "futex", "posix", "busy_wait", "default"):
+            for threads in (2, 3, 4, 8):
+                res.append({"mode": mode, "threads": threads, "factory": "raw", "reps": 3,
+                            "applies": [[min(3, threads), 0, 0, [[0, 300000, 0], [1, 4000000, 6]]],
+                                        [2, 0, 0, [[0, 200000, 0], [1, 3000000, 4]]],
+                                        [500, -1, 100],
+                                        [threads, 1, 0, [[threads - 1, 3000000, 5]]],
+                                        [threads + 1, 0, 2000]]})
         return res
 
     def check(self, case):
@@ -111,8 +136,22 @@ class C49(core.Prop):
         parallel = 0
         big = 0
         for o in outs[:total]:
-            n, steal, spin = case["applies"][o["a"] % len(case["applies"])]
-            where = "apply #%d (n=%d, next()-calls=%d, spin=%d) on a Parmap of %d threads, mode %s" % (o["a"], n, steal, spin, threads, mode)
+            spec = case["applies"][o["a"] % len(case["applies"])]
+            n, steal, spin = spec[:3]
+            slow = spec[3] if len(spec) > 3 else None
+            where = "apply #%d (n=%d, next()-calls=%d, spin=%d%s) on a Parmap of %d threads, mode %s" % (
+                o["a"], n, steal, spin, (", slow elements [index, iterations, wake-ups sent to the other workers] %s" % slow) if slow else "",
+                threads, mode)
+            if slow:
+                labels.add("slow-element")
+                if any(k > 0 for _, _, k in slow):
+                    labels.add("wakeup-injection")
+                    labels.add("wakeup-injection:" + mode)
+                    if o.get("kicks", 0) > 0:
+                        labels.add("wakeup-delivered")
+                        labels.add("wakeup-delivered:" + mode)
+                        if n <= threads:
+                            labels.add("wakeup-delivered:some-worker-idle:" + mode)
             if o["nlost"]:
                 oc.bad("lost-element:" + mode, "%s: %d elements were not processed when apply() returned, e.g. indices %s"
                        % (where, o["nlost"], o["lost"]))
